@@ -698,6 +698,21 @@ impl<'a, 't, 'g> VGen<'a, 't, 'g> {
                     return g;
                 }
             }
+            // ... or the name of a variable that some OTHER declaration declares (scopes must not leak)
+            let foreign: Vec<String> = self
+                .local_pool
+                .iter()
+                .filter(|n| !self.cur_locals.iter().any(|x| x.eq_ignore_ascii_case(n)) && !self.cur_scope_names.iter().any(|x| x.eq_ignore_ascii_case(n)) && !self.globals.iter().any(|g| g.name.eq_ignore_ascii_case(n)))
+                .cloned()
+                .collect();
+            if !foreign.is_empty() && self.sites.iter().sum::<usize>() % 3 == 0 {
+                let f = self.t_free_pick(&foreign).clone();
+                self.set_marker(&f);
+                if let Some(p) = &mut self.planted {
+                    p.site_class = format!("{}.variable-of-other-declaration", p.site_class);
+                }
+                return f;
+            }
             let m = self.marker("undeclared");
             self.set_marker(&m);
             m
